@@ -221,6 +221,36 @@ fn confirm_hang(path: &Path, watchdog_s: u64) -> bool {
     finished.iter().any(|f| !*f)
 }
 
+thread_local! {
+    static NOTES: std::cell::RefCell<Option<Vec<String>>> = const { std::cell::RefCell::new(None) };
+}
+
+/// a line of the trace of a case; evaluated only while a case is being described for a sample or
+/// a replay, never during the search
+pub fn note(text: impl FnOnce() -> String) {
+    NOTES.with(|n| {
+        if let Some(v) = n.borrow_mut().as_mut() {
+            v.push(text());
+        }
+    });
+}
+
+/// describe a case by running it once more with tracing on: the sample shows what was generated,
+/// what was done with it and what came back
+pub fn describe_by_running(check: fn(&[u8], &Ctx) -> Verdict, bytes: &[u8]) -> Value {
+    NOTES.with(|n| *n.borrow_mut() = Some(Vec::new()));
+    let ctx = Ctx { tier: Tier::Quick, seed: 1, strict: false, partition: 0 };
+    let verdict = catch_unwind(AssertUnwindSafe(|| check(bytes, &ctx)));
+    let notes = NOTES.with(|n| n.borrow_mut().take()).unwrap_or_default();
+    let outcome = match verdict {
+        Ok(Verdict::Pass { nontrivial, labels }) => format!("pass (non-trivial: {}; labels {:?})", nontrivial.is_some(), labels),
+        Ok(Verdict::Discard(w)) => format!("discarded: {}", w),
+        Ok(Verdict::Fail { sig, msg }) => format!("FAIL [{}] {}", sig, msg),
+        Err(_) => "panicked".to_string(),
+    };
+    json!({"trace": notes, "outcome": outcome})
+}
+
 pub struct Outcome {
     pub stats: Stats,
     pub failures: Vec<Failure>,
